@@ -42,6 +42,8 @@ type Case struct {
 	PortH   int    `json:",omitempty"`
 	PortT   int    `json:",omitempty"`
 	DBFail  bool   `json:",omitempty"`
+	AzSt    string `json:",omitempty"` // stored status of the owning authorization before the call ("" = pending)
+	AzExp   bool   `json:",omitempty"` // the owning authorization has expired
 	Mut     string `json:",omitempty"` // name of the mutation that produced the response (evidence only)
 
 	HTTP *HTTPW `json:",omitempty"`
@@ -285,6 +287,14 @@ func (k *Case) runValidate() (out string) {
 		Value: k.Value, Type: chType(k.Typ), Status: statusOf(k.Status), Token: k.Token, Error: prevErr(k.PrevErr),
 	}
 	db := &recDB{k: k, status: ch.Status, errType: errTypeName(ch.Error), authzSt: acme.StatusPending}
+	// the owning authorization as stored
+	azStatus, azExpires := acme.StatusPending, time.Now().Add(time.Hour)
+	if k.AzSt != "" {
+		azStatus = acme.Status(k.AzSt)
+	}
+	if k.AzExp {
+		azExpires = time.Now().Add(-time.Hour)
+	}
 	db.MockUpdateChallenge = func(_ context.Context, up *acme.Challenge) error {
 		if k.DBFail {
 			return errors.New("database refuses the write")
@@ -297,7 +307,7 @@ func (k *Case) runValidate() (out string) {
 		if k.DA != nil && k.DA.AuthzFail {
 			return nil, errors.New("authorization not found")
 		}
-		return &acme.Authorization{ID: id, AccountID: "accID", Status: acme.StatusPending, ExpiresAt: time.Now().Add(time.Hour)}, nil
+		return &acme.Authorization{ID: id, AccountID: "accID", Status: azStatus, ExpiresAt: azExpires}, nil
 	}
 	db.MockUpdateAuthorization = func(_ context.Context, az *acme.Authorization) error {
 		if k.DA != nil && k.DA.AuthzDBFail {
@@ -307,6 +317,7 @@ func (k *Case) runValidate() (out string) {
 			db.fpStored = true
 		}
 		db.authzSt = az.Status
+		azStatus, azExpires = az.Status, az.ExpiresAt // the record is replaced by what the validator wrote
 		return nil
 	}
 	sc := &scripted{k: k}
@@ -327,8 +338,9 @@ func (k *Case) runValidate() (out string) {
 			ret = "err"
 		}
 	}
-	// the authorization afterwards: one pending authorization owning the stored challenge
-	az := &acme.Authorization{ID: "azID", AccountID: "accID", Status: acme.StatusPending, ExpiresAt: time.Now().Add(time.Hour),
+	// the authorization afterwards: the stored record (as the validator left it) owning the stored challenge
+	azRec := statusName(azStatus) + ":" + c.B(time.Now().After(azExpires))
+	az := &acme.Authorization{ID: "azID", AccountID: "accID", Status: azStatus, ExpiresAt: azExpires,
 		Challenges: []*acme.Challenge{{ID: "chID", Type: ch.Type, Status: db.status}}}
 	azOut := "err"
 	db.MockUpdateAuthorization = func(context.Context, *acme.Authorization) error { return nil } // the fault (if any) was for the validator
@@ -342,7 +354,7 @@ func (k *Case) runValidate() (out string) {
 	if !k.cmpTarget() {
 		tgt = "?"
 	}
-	return fmt.Sprintf("%s err=%s ret=%s fp=%s az=%s tgt=%s", statusName(db.status), db.errType, ret, c.B(db.fpStored), azOut, tgt)
+	return fmt.Sprintf("%s err=%s ret=%s fp=%s azrec=%s az=%s tgt=%s", statusName(db.status), db.errType, ret, c.B(db.fpStored), azRec, azOut, tgt)
 }
 
 func idType(t string) acme.IdentifierType {
@@ -478,8 +490,12 @@ func (k *Case) render() (string, bool) {
 	if perr == "" {
 		perr = "none"
 	}
-	head := fmt.Sprintf("op=validate typ=%s st=%s perr=%s val=%s tok=%s thumb=%s ip=%s strict=%s ph=%d pt=%d db=%s cmp=%s h=%s",
-		k.Typ, statusName(statusOf(k.Status)), perr, c.X(k.Value), c.X(k.Token), c.Opt(th, ok), ipField(k.Value), c.B(k.Strict), k.PortH, k.PortT,
+	azst := k.AzSt
+	if azst == "" {
+		azst = "pending"
+	}
+	head := fmt.Sprintf("op=validate typ=%s st=%s perr=%s azst=%s azexp=%s val=%s tok=%s thumb=%s ip=%s strict=%s ph=%d pt=%d db=%s cmp=%s h=%s",
+		k.Typ, statusName(statusOf(k.Status)), perr, azst, c.B(k.AzExp), c.X(k.Value), c.X(k.Token), c.Opt(th, ok), ipField(k.Value), c.B(k.Strict), k.PortH, k.PortT,
 		c.B(!k.DBFail), c.B(k.cmpTarget()), hashTable(k))
 	var w string
 	switch {
@@ -521,6 +537,8 @@ func main() {
 	out := flag.String("out", "", "output file (input<TAB>impl)")
 	replay := flag.String("replay", "", "file of model input lines (case=… field) to re-run instead of generating")
 	flag.Parse()
+	plantSystemRoot()
+	defer os.RemoveAll(sysRootDir)
 	initAccounts()
 	initTLS()
 	initAttest()
